@@ -22,6 +22,10 @@ pub struct Hs {
     /// reported its rates, so a choke rotation (event R) is carried out and has to deal with the
     /// connection under test as "one of the rest".
     pub crowded: bool,
+    /// Z: the manager becomes busy and the rest of the swarm fills its command queue to the last
+    /// slot; W: it comes back and works the queue off. What the manager must have done (forget a
+    /// rejected peer) is judged once it is back.
+    pub fullqueue: bool,
 }
 
 #[derive(Default)]
@@ -34,6 +38,8 @@ pub struct Mon {
     /// A well-formed handshake naming another torrent / another peer id was fed at this write count.
     pub rejected_at: Option<usize>,
     pub scanned: usize,
+    pub pauses: usize,
+    pub queued: Vec<String>,
 }
 
 pub const PLAIN: [&str; 7] = ["Bitfield", "Interested", "NotInterested", "Unchoke", "Request", "Have", "KeepAlive"];
@@ -51,7 +57,7 @@ impl Hs {
         if self.outgoing {
             v.push("HS:otherid".into());
         }
-        if self.downloader || self.crowded {
+        if self.downloader || self.crowded || self.fullqueue {
             v.extend(["KeepAlive", "Interested", "Have"].iter().map(|s| s.to_string()));
             if self.crowded {
                 v.push("R".to_string());
@@ -102,7 +108,7 @@ fn event_bytes(w: &World, sym: &str) -> Vec<u8> {
 impl Scenario for Hs {
     type Mon = Mon;
     fn name(&self) -> String {
-        format!("handshake-{}-bits{:?}{}", if self.outgoing { "outgoing" } else { "incoming" }, self.bits, if self.downloader { "-while-downloading" } else if self.crowded { "-crowded" } else { "" })
+        format!("handshake-{}-bits{:?}{}", if self.outgoing { "outgoing" } else { "incoming" }, self.bits, if self.downloader { "-while-downloading" } else if self.crowded { "-crowded" } else if self.fullqueue { "-fullqueue" } else { "" })
     }
     fn cfg(&self) -> WorldCfg {
         if self.downloader {
@@ -121,6 +127,9 @@ impl Scenario for Hs {
             // the connection under test reports its rates on its own (two statistics ticks)
             w.step(&Ev::AdvanceTo(20_500), &[]);
         }
+        if self.fullqueue {
+            w.add_mgr_peer();
+        }
         if self.downloader {
             let t = w.t.clone();
             let id = w.peers[1].cfg.id;
@@ -132,11 +141,24 @@ impl Scenario for Hs {
         if self.downloader && w.peers[1].msgs.iter().filter(|m| matches!(m, Msg::Request(..))).count() > mon.d_answered {
             v.push("Dp".to_string());
         }
+        if self.fullqueue {
+            if w.manager_paused {
+                v.push("W".to_string());
+            } else if mon.pauses < 1 && !w.peers[0].ended.get() {
+                v.push("Z".to_string());
+            }
+        }
         v
     }
     fn concretize(&self, w: &World, mon: &Mon, sym: &str) -> Vec<Ev> {
         if sym == "R" {
             return vec![Ev::Rotate];
+        }
+        if sym == "Z" {
+            return vec![Ev::PauseManager, Ev::FillQueue];
+        }
+        if sym == "W" {
+            return vec![Ev::ResumeManager];
         }
         if sym == "Dp" {
             let req = w.peers[1].msgs.iter().filter(|m| matches!(m, Msg::Request(..))).nth(mon.d_answered).cloned();
@@ -164,7 +186,16 @@ impl Scenario for Hs {
         if last == Some("Dp") {
             mon.d_answered += 1;
         }
-        if let Some(sym) = last.filter(|s| *s != "Dp" && *s != "R") {
+        match last {
+            Some("Z") => mon.pauses += 1,
+            Some("W") => mon.queued.clear(),
+            Some(s) if w.manager_paused => mon.queued.push(s.to_string()),
+            _ => {}
+        }
+        if last == Some("Z") && w.queue_filled == 0 {
+            return Some(("machinery", "the queue could not be filled".to_string()));
+        }
+        if let Some(sym) = last.filter(|s| *s != "Dp" && *s != "R" && *s != "Z" && *s != "W") {
             mon.fed.extend(event_bytes(w, sym));
             let (decoded, _, _) = refwire::decode_stream(&mon.fed);
             let n_before = decoded.len();
@@ -184,7 +215,10 @@ impl Scenario for Hs {
             }
             mon.valid_hs_fed = valid;
             if foreign && mon.rejected_at.is_none() {
-                mon.rejected_at = Some(before);
+                // fed while the manager is busy, behind a valid handshake the task is still working
+                // on (it waits for the manager): what the task writes when the manager is back may
+                // belong to the messages in front; only the ending is judged then
+                mon.rejected_at = Some(if w.manager_paused && valid { usize::MAX } else { before });
             }
         }
         // (1) the client's first message is its own, correct handshake
@@ -216,29 +250,32 @@ impl Scenario for Hs {
             if p.msgs.len() > at {
                 return Some(("wrote-after-foreign-handshake", format!("after the foreign handshake the client wrote {:?}", p.msgs[at..].iter().map(|m| m.short()).collect::<Vec<_>>())));
             }
-            if !p.ended.get() || w.snap().peers.iter().any(|x| x.addr == p.cfg.addr) {
+            // (a busy manager has not seen the task's last words yet: judged when it is back)
+            if !w.manager_paused && (!p.ended.get() || w.snap().peers.iter().any(|x| x.addr == p.cfg.addr)) {
                 return Some(("foreign-handshake-not-closed", format!("connection task ended: {}, manager still lists the peer: {}", p.ended.get(), w.snap().peers.iter().any(|x| x.addr == p.cfg.addr))));
             }
         }
         None
     }
     fn key(&self, w: &World, mon: &Mon) -> String {
-        format!("{} v={} r={:?} n={} d={}", w.default_key(), mon.valid_hs_fed, mon.rejected_at.is_some(), w.peers[0].msgs.len(), mon.d_answered)
+        format!("{} v={} r={:?} n={} d={} busy={} q={:?} z={}", w.default_key(), mon.valid_hs_fed, mon.rejected_at.is_some(), w.peers[0].msgs.len(), mon.d_answered, w.manager_paused, mon.queued, mon.pauses)
     }
 }
 
 pub fn scenarios(thorough: bool) -> Vec<Hs> {
     let mut v = vec![
-        Hs { outgoing: true, bits: vec![0, 159], downloader: false, crowded: false },
-        Hs { outgoing: false, bits: vec![0, 159], downloader: false, crowded: false },
-        Hs { outgoing: false, bits: vec![0], downloader: true, crowded: false },
-        Hs { outgoing: true, bits: vec![0], downloader: true, crowded: false },
-        Hs { outgoing: false, bits: vec![0], downloader: false, crowded: true },
-        Hs { outgoing: true, bits: vec![0], downloader: false, crowded: true },
+        Hs { outgoing: true, bits: vec![0, 159], downloader: false, crowded: false, fullqueue: false },
+        Hs { outgoing: false, bits: vec![0, 159], downloader: false, crowded: false, fullqueue: false },
+        Hs { outgoing: false, bits: vec![0], downloader: true, crowded: false, fullqueue: false },
+        Hs { outgoing: true, bits: vec![0], downloader: true, crowded: false, fullqueue: false },
+        Hs { outgoing: false, bits: vec![0], downloader: false, crowded: true, fullqueue: false },
+        Hs { outgoing: true, bits: vec![0], downloader: false, crowded: true, fullqueue: false },
+        Hs { outgoing: false, bits: vec![0], downloader: false, crowded: false, fullqueue: true },
+        Hs { outgoing: true, bits: vec![0], downloader: false, crowded: false, fullqueue: true },
     ];
     if thorough {
-        v.push(Hs { outgoing: true, bits: vec![7, 80], downloader: false, crowded: false });
-        v.push(Hs { outgoing: false, bits: vec![31, 128], downloader: false, crowded: false });
+        v.push(Hs { outgoing: true, bits: vec![7, 80], downloader: false, crowded: false, fullqueue: false });
+        v.push(Hs { outgoing: false, bits: vec![31, 128], downloader: false, crowded: false, fullqueue: false });
     }
     v
 }
@@ -263,7 +300,7 @@ pub fn run(ctx: &Ctx) -> Outcome {
                 core::private_cwd("bfs", &format!("w{}", w))
             },
             |dir, _, b| {
-                let s = Hs { outgoing, bits: vec![*b], downloader: false, crowded: false };
+                let s = Hs { outgoing, bits: vec![*b], downloader: false, crowded: false, fullqueue: false };
                 let r = explore::replay(&s, dir, &[(format!("HS:hash{}", b), vec![])], false);
                 r.violation
             },
@@ -271,7 +308,7 @@ pub fn run(ctx: &Ctx) -> Outcome {
         for (b, v) in bits.iter().zip(res) {
             bit_runs += 1;
             if let Some((class, why)) = v {
-                let s = Hs { outgoing, bits: vec![*b], downloader: false, crowded: false };
+                let s = Hs { outgoing, bits: vec![*b], downloader: false, crowded: false, fullqueue: false };
                 ctx.violation(class, format!("[{}] {}", s.name(), why), json!({"scenario": s.name(), "history": [format!("HS:hash{}", b)]}));
             }
         }
@@ -322,7 +359,7 @@ pub fn run(ctx: &Ctx) -> Outcome {
     explore::stats_outcome(&total, &mut o);
     o.set("scenarios", Value::Array(per));
     o.set("single_bit_hash_corruptions", json!(bit_runs));
-    o.set("rule", json!(format!("BFS to depth {} over the alphabet [HS:good, HS:hash0, HS:hash159, HS:otherid (outgoing only), HS:pstr, HS:pstrlen, HS:trunc, {}] on an outgoing and an incoming connection, manager owning both pieces; -crowded variants: ten manager-only peers hold all regular upload slots, every connection has reported rates, and R (one real choke rotation) may happen at any point of the handshake phase; -while-downloading variants: the client owns nothing, a second connection D (honest seeder) completes pieces at any point (event Dp, so the manager announces them to every connection task) while the connection under test sends good / corrupted handshakes, KeepAlive, Interested, Have; a state is the canonical snapshot of manager + connection task + files + monitor; histories end when the connection task ended. Plus all 160 single-bit corruptions of the info-hash as first message, both directions. Plus three full-session scenarios borrowed from C02 (identity-*): a re-announce lists a connected address followed by a new one, whose peer presents its own announced id (must stay connected) or the id of the connected peer (must be dropped); a host re-listed under a new id. Plus four exchanges with the real session's accept path over loopback TCP (real clock): a dial-in peer stays silent / sends a handshake for another torrent / a good handshake / a Bitfield before any handshake.", depth, PLAIN.join(", "))));
+    o.set("rule", json!(format!("BFS to depth {} over the alphabet [HS:good, HS:hash0, HS:hash159, HS:otherid (outgoing only), HS:pstr, HS:pstrlen, HS:trunc, {}] on an outgoing and an incoming connection, manager owning both pieces; -crowded variants: ten manager-only peers hold all regular upload slots, every connection has reported rates, and R (one real choke rotation) may happen at any point of the handshake phase; -fullqueue variants: Z (the manager becomes busy and 64 statistics reports of the rest of the swarm fill its command queue to the last slot) and W (it comes back and works the queue off) around the handshake events, so the task's last words to the manager find no free slot; -while-downloading variants: the client owns nothing, a second connection D (honest seeder) completes pieces at any point (event Dp, so the manager announces them to every connection task) while the connection under test sends good / corrupted handshakes, KeepAlive, Interested, Have; a state is the canonical snapshot of manager + connection task + files + monitor; histories end when the connection task ended. Plus all 160 single-bit corruptions of the info-hash as first message, both directions. Plus three full-session scenarios borrowed from C02 (identity-*): a re-announce lists a connected address followed by a new one, whose peer presents its own announced id (must stay connected) or the id of the connected peer (must be dropped); a host re-listed under a new id. Plus four exchanges with the real session's accept path over loopback TCP (real clock): a dial-in peer stays silent / sends a handshake for another torrent / a good handshake / a Bitfield before any handshake.", depth, PLAIN.join(", "))));
     o.assume("a truncated handshake followed by other bytes is undecodable input (C06's subject); after it nothing is demanded here except (2) and (4)");
     o
 }
@@ -331,7 +368,7 @@ pub fn parse_name(name: &str) -> Hs {
     let outgoing = name.contains("outgoing");
     let inner = name.split("bits[").nth(1).unwrap().split(']').next().unwrap();
     let bits: Vec<usize> = inner.split(", ").filter(|s| !s.is_empty()).map(|s| s.parse().unwrap()).collect();
-    Hs { outgoing, bits, downloader: name.contains("while-downloading"), crowded: name.contains("crowded") }
+    Hs { outgoing, bits, downloader: name.contains("while-downloading"), crowded: name.contains("crowded"), fullqueue: name.contains("fullqueue") }
 }
 
 pub fn replay(_ctx: &Ctx, r: &Value) -> i32 {
